@@ -194,7 +194,37 @@ def _policy_classes():
         """a policy object that happens to be an (empty, hence falsy) mapping"""
         __hash__ = object.__hash__
 
+    class LegacyAuthz:
+        """authorization policy of the deprecated pair; permits(context, principals, permission) has no request: the log of
+        the request being served is found through _CUR"""
+        def permits(self, context, principals, permission):
+            env = _CUR['env']
+            return PolicyMixin.permits(self, P['Request'](env), context, permission)
+
+        def principals_allowed_by_permission(self, context, permission):
+            return []
+
+    class LegacyAuthn:
+        def authenticated_userid(self, request):
+            return None
+
+        def unauthenticated_userid(self, request):
+            return None
+
+        def effective_principals(self, request):
+            return []
+
+        def remember(self, request, userid, **kw):
+            return []
+
+        def forget(self, request):
+            return []
+
     P['TruthyPolicy'], P['FalsyPolicy'] = TruthyPolicy, FalsyPolicy
+    P['LegacyAuthz'], P['LegacyAuthn'] = LegacyAuthz, LegacyAuthn
+
+
+_CUR = {}
 
 
 def raise_logger(handler, registry):
@@ -361,7 +391,10 @@ class World:
         P, cfg = _P, self.cfg
         k = s['k']
         if k == 'policy':
-            if not s['ctor']:
+            if s.get('legacy'):          # the deprecated pair: LegacySecurityPolicy becomes the ISecurityPolicy
+                cfg.set_authorization_policy(P['LegacyAuthz']())
+                cfg.set_authentication_policy(P['LegacyAuthn']())
+            elif not s['ctor']:
                 cfg.set_security_policy(self.policy)
             return
         if k == 'defperm':
@@ -438,6 +471,7 @@ class World:
         env = rq.environ
         env['c05.log'], env['c05.truth'], env['c05.world'] = log, list(r['truth']), self
         got = {}
+        _CUR['env'] = env
 
         def start_response(status, headers, exc_info=None):
             got['status'], got['headers'] = status, dict(headers)
@@ -468,6 +502,7 @@ class World:
             rq.headers['X-CSRF-Token'] = 'tok'
         rq.environ['c05.log'], rq.environ['c05.truth'], rq.environ['c05.world'] = log, list(r['truth']), self
         rq.registry = self.cfg.registry
+        _CUR['env'] = rq.environ
         context = P['resources'][r['res']]
         rq.context = context
         try:
